@@ -113,6 +113,25 @@ def gen(tier, seed):
                 pts = rnd.sample(inside + outside, rnd.randint(1, 4))
                 qs.append((kind, tuple(pts), b, kindi, fill, pu, pm, lu, lb, mu, mb))
         out.append((init, qs))
+    # ---- targeted: two calls whose cache keys differ in exactly one component (branch / kind / fill), queried outside the
+    #      range so that the fill rule matters; and a permanent conversion between two identical calls
+    init0 = (('absolute', 'bar'), ('molar', 'mmol'), ('mass', 'g'), 'K', 77.355, 'full')
+    fills = [None, 0.0, 5.0, (0.0, 20.0), (0.0, 25.0), (1.0, 20.0), (3.0, 4.0), 'extrapolate']
+    pts_p, pts_l = (0.01, 0.3, 2.0), (0.3, 3.0, 9.0)      # below / inside / above the measured range (ads branch)
+    pairs = [(f1, f2) for f1 in fills for f2 in fills if f1 != f2]
+    if tier == 'quick':
+        pairs = rnd.sample(pairs, 28)
+    for f1, f2 in pairs:
+        out.append((init0, [('loading_at', pts_p, 'ads', 'linear', f1) + (None,) * 6, ('loading_at', pts_p, 'ads', 'linear', f2) + (None,) * 6]))
+        out.append((init0, [('pressure_at', pts_l, 'ads', 'linear', f1) + (None,) * 6, ('pressure_at', pts_l, 'ads', 'linear', f2) + (None,) * 6]))
+    for b1, b2, k1, k2 in [('ads', 'des', 'linear', 'linear'), ('des', 'ads', 'linear', 'linear'), ('ads', 'ads', 'cubic', 'linear'), ('ads', 'ads', 'nearest', 'linear')]:
+        out.append((init0, [('loading_at', (0.3, 0.6), b1, k1, (0.0, 20.0)) + (None,) * 6, ('loading_at', (0.3, 0.6), b2, k2, (0.0, 20.0)) + (None,) * 6]))
+        out.append((init0, [('pressure_at', (2.0, 3.5), b1, k1, (0.0, 20.0)) + (None,) * 6, ('pressure_at', (2.0, 3.5), b2, k2, (0.0, 20.0)) + (None,) * 6]))
+    convs = [('P', ('absolute', 'kPa')), ('P', ('relative', None)), ('L', ('mass', 'mg')), ('L', ('molar', 'mol')), ('M', ('mass', 'kg')), ('M', ('volume', 'cm3')), ('M', ('molar', 'mmol'))]
+    for cv in convs:
+        for kind, pts in (('loading_at', (0.3, 0.6)), ('pressure_at', (2.0, 3.5))):
+            q = (kind, pts, 'ads', 'linear', (0.0, 20.0)) + (None,) * 6
+            out.append((init0, [q, ('conv', cv), q]))
     return out
 
 
@@ -302,6 +321,25 @@ def opaque_queries(rep, tier, seed):
             a = pygaps.Adsorbate.find(name)
             t1, t2 = (70.0, 90.0) if name == 'nitrogen' else ((300.0, 400.0) if name == 'water' else (230.0, 280.0))
             seq = [a.saturation_pressure(t1), a.liquid_density(t2), a.surface_tension(t1), a.saturation_pressure(t2), a.gas_density(t1), a.saturation_pressure(t1)]
+            # a call that FAILS (supercritical temperature) must fail the same way when repeated, and must not poison later calls
+            ts = a.t_critical() + 40.0
+
+            def klass(fn, *args):
+                try:
+                    v = fn(*args)
+                    return ('Ok', None if v is None else round(float(v), 9))
+                except Exception as e:  # noqa
+                    return (vlib.exn_class(e), None)
+            for meth in ('saturation_pressure', 'liquid_density', 'gas_density', 'surface_tension'):
+                first = klass(getattr(a, meth), ts)
+                again = klass(getattr(a, meth), ts)
+                fr = klass(getattr(pygaps.Adsorbate(name + '_y', backend_name=a.backend_name), meth), ts)
+                after = klass(a.saturation_pressure, t1)
+                n += 4
+                if not (first == again == fr) or after != ('Ok', round(float(seq[0]), 9)):
+                    rep.failure('C04:unclassified:adsorbate-state-visible', '%s.%s(%r): first %r, repeated %r, fresh adsorbate %r; saturation_pressure(%r) afterwards %r vs %r before'
+                                % (name, meth, ts, first, again, fr, t1, after, seq[0]),
+                                {'adsorbate': name, 'method': meth, 'T': ts, 'first': first, 'again': again, 'fresh': fr, 'kind': 'history-dependent'})
             fresh = [pygaps.Adsorbate(name + '_x', backend_name=a.backend_name).saturation_pressure(t1)]
             n += 7
             if seq[0] != seq[5] or seq[0] != fresh[0]:
